@@ -9,6 +9,8 @@ the object readable after.
 """
 import itertools
 
+import numpy as np
+
 from traits.api import (AdaptsTo, Any, ComparisonMode, Event, Expression,
                         Float, HasTraits, Instance, Int, List,
                         PrototypedFrom, Str, Supports, TraitError, Undefined,
@@ -86,6 +88,8 @@ POOL = {
     "big2": 10 ** 20 + 0, "sa2": "".join(["a"]),
     "badrepr": BadRepr(), "badrepr2": BadRepr(), "7": 7, "0": 0,
     "C0": C0, "FOO0": FOO0, "e1": "1+1", "e1b": "".join(["1+", "1"]),
+    # values whose != gives something without a truth value
+    "arr1": np.array([1, 2]), "arr2": np.array([1, 2]),
     "e2": "2", "ebad": "1+",
 }
 
@@ -96,7 +100,7 @@ MODES = {"none": ComparisonMode.none, "identity": ComparisonMode.identity,
 KINDS = {
     "Any": (lambda m: Any(comparison_mode=MODES[m]),
             ["1", "2", "1.0", "True", "L1", "L2", "nan1", "nan2", "badeq",
-             "None", "badrepr", "badrepr2"]),
+             "None", "badrepr", "badrepr2", "arr1", "arr2"]),
     "Int": (lambda m: Int(comparison_mode=MODES[m]),
             ["1", "2", "True", "big", "big2", "a"]),
     "Str": (lambda m: Str(comparison_mode=MODES[m]), ["a", "sa2", "b", "1"]),
@@ -487,6 +491,45 @@ def wildcard_cells(ctx):
             ctx.outcome("notified" if exp else "suppressed-identical")
 
 
+def magic_named_observe_cells(ctx):
+    """A method declared with @observe that also carries a magic name
+    (_x_changed, _x_fired, _anytrait_changed) is an observe handler only:
+    in the class that defines it and in subclasses, one call per change"""
+    for magic, sub in (("_x_changed", False), ("_x_changed", True),
+                       ("_anytrait_changed", True), ("_x_fired", True)):
+        ctx.case({"cell": "magic-observe", "name": magic, "subclass": sub})
+        ctx.ev()
+        calls = []
+
+        def body(self, *args):
+            calls.append(args)
+        ns = {"x": Int, magic: observe("x")(body)}
+        Base = type("Base", (HasTraits,), ns)
+        cls = type("Sub", (Base,), {}) if sub else Base
+        o = cls()
+        for v in (1, 2):
+            calls.clear()
+            ctx.tr()
+            try:
+                o.x = v
+            except Exception as exc:
+                ctx.violation("C02:magic-observe:raises", "raised %r"
+                              % (exc,), cell="magic-observe", name=magic,
+                              subclass=sub)
+                break
+            if len(calls) != 1 or len(calls[0]) != 1 or \
+                    getattr(calls[0][0], "new", None) != v:
+                ctx.violation(
+                    "C02:magic-observe:%s" % magic,
+                    "@observe('x') method named %s, instance of %s: x = %d "
+                    "called it with %r, expected one call with the event"
+                    % (magic, "a subclass" if sub else "the class", v,
+                       [tuple(type(a).__name__ for a in c) for c in calls]),
+                    cell="magic-observe", name=magic, subclass=sub)
+                break
+            ctx.outcome("notified")
+
+
 def instance_trait_cells(ctx):
     """Two instances of one class carry an instance trait of the same name
     with different comparison modes: each assignment goes by the mode of the
@@ -551,7 +594,8 @@ def instance_trait_cells(ctx):
 
 
 def shards(tier):
-    out = [{"cell": "wildcard"}, {"cell": "instance-trait"}]
+    out = [{"cell": "wildcard"}, {"cell": "instance-trait"},
+           {"cell": "magic-observe"}]
     for kind, mode in configs():
         for grp in (0, 1, 2):
             out.append({"kind": kind, "mode": mode, "group": grp})
@@ -579,8 +623,8 @@ def canon(rig):
 
 def run_shard(ctx, shard, tier):
     if shard.get("cell"):
-        (wildcard_cells if shard["cell"] == "wildcard"
-         else instance_trait_cells)(ctx)
+        {"wildcard": wildcard_cells, "instance-trait": instance_trait_cells,
+         "magic-observe": magic_named_observe_cells}[shard["cell"]](ctx)
         ctx.depth_completed = 3
         return
     raisers = ([None] + HANDLERS)[shard["group"]::3]
@@ -651,8 +695,8 @@ def replay(rec):
     ctx = Ctx("C02", None, "quick", 0)
     c = rec["case"]
     if c.get("cell"):
-        (wildcard_cells if c["cell"] == "wildcard"
-         else instance_trait_cells)(ctx)
+        {"wildcard": wildcard_cells, "instance-trait": instance_trait_cells,
+         "magic-observe": magic_named_observe_cells}[c["cell"]](ctx)
         for v in ctx.violations.values():
             print("  violation:", v["sig"], v["msg"])
         return not ctx.violations
